@@ -34,6 +34,9 @@ func (m *windowModel) step(ts uint64) bool {
 
 var c07Key = [32]byte{7, 7, 7, 1, 2, 3}
 
+// verbatimDup[i] makes history element i (when its timestamp equals its predecessor's) the predecessor's exact bytes.
+var verbatimDup = map[int]bool{}
+
 // linkOf picks the signature link id of the i-th frame of a history: the replay window belongs to the
 // reader (the link), not to the link id a frame claims, so histories mix link ids.
 func linkOf(seq byte) byte { return []byte{3, 3, 0, 255, 7, 3, 200, 1}[int(seq)%8] }
@@ -62,11 +65,16 @@ func runHistory(hist []uint64, frames map[uint64][]byte) (string, error) {
 func runHistoryDialect(hist []uint64, di *dialectInfo, known []bool) (string, error) {
 	var stream []byte
 	var lens []int
+	var prevBytes []byte
 	for i, ts := range hist {
 		b := signedAt(ts, byte(i)) // link id depends on the position
 		if di != nil && known[i] {
 			b = signedKnownAt(di, ts, byte(i))
 		}
+		if i > 0 && hist[i-1] == ts && verbatimDup[i] {
+			b = prevBytes // the same frame once more, byte for byte (a duplicated datagram)
+		}
+		prevBytes = b
 		stream = append(stream, b...)
 		lens = append(lens, len(b))
 	}
@@ -124,6 +132,7 @@ var c07Alphabet = []uint64{0, 1, 5, 999999, 1000000, 1000001, 2000000, 2000001, 
 	1<<48 - 1000001, 1<<48 - 1000000, 1<<48 - 1}
 
 func TestC07WindowEnumerated(t *testing.T) {
+	verbatimDup = map[int]bool{}
 	depth := evid.N(4, 5)
 	rec := evid.New(t, "C07", fmt.Sprintf("all histories of correctly signed frames with timestamps from a 13-value boundary alphabet up to depth %d; every accept/'too old' decision compared with a big-integer model of the window", depth))
 	frames := map[uint64][]byte{}
@@ -174,20 +183,49 @@ func TestC07WindowEnumerated(t *testing.T) {
 
 func TestC07WindowRandom(t *testing.T) {
 	rec := evid.New(t, "C07", "rapid histories (<=40 frames) mixing boundary values, random 48-bit timestamps and newest+-delta around 1,000,000; model comparison at every step; non-trivial = some frame older than newest but inside the window, on the boundary, or newest < 1,000,000; distinct by hash of the history")
-	rec.Require("inside-window", "on-boundary", "just-outside", "newest-below-window", "forged-interleaved", "dialect-reader-known+unknown-messages")
+	rec.Require("inside-window", "on-boundary", "just-outside", "newest-below-window", "forged-interleaved", "dialect-reader-known+unknown-messages", "frame-repeated-byte-for-byte", "run-of-8+-stale-frames-with-rising-timestamps")
 	common, _ := dialects(t)
 	evid.Check(t, rec, evid.N(40000, 200000), func(t *rapid.T) {
 		readBufSize = 512
 		n := rapid.IntRange(1, 40).Draw(t, "n")
 		var hist []uint64
 		var m windowModel
+		sawDup, sawStaleRun := false, false
+		verbatimDup = map[int]bool{}
+		staleRun := 0
+		var staleNext uint64
 		for i := 0; i < n; i++ {
 			var ts uint64
-			switch rapid.IntRange(0, 3).Draw(t, "kind") {
+			kind := rapid.IntRange(0, 5).Draw(t, "kind")
+			if staleRun > 0 {
+				kind = -1
+			}
+			switch kind {
+			case -1: // inside a run of stale frames whose timestamps rise (someone replaying an old recording)
+				ts = staleNext
+				staleNext += uint64(rapid.IntRange(1, 500).Draw(t, "stale_step"))
+				staleRun--
 			case 0:
 				ts = rapid.SampledFrom(c07Alphabet).Draw(t, "alpha")
 			case 1:
 				ts = rapid.Uint64Range(0, 1<<48-1).Draw(t, "rnd")
+			case 4: // the previous frame again, byte for byte
+				if i > 0 {
+					ts = hist[i-1]
+					verbatimDup[i] = true
+					sawDup = true
+				}
+			case 5: // start a run of 8..14 stale frames with rising timestamps
+				if m.has && m.newest > 3*windowTicks && i+9 < n {
+					staleRun = rapid.IntRange(8, 14).Draw(t, "stale_run")
+					staleNext = m.newest - windowTicks - uint64(rapid.IntRange(10000, 1000000).Draw(t, "stale_back"))
+					ts = staleNext
+					staleNext += 7
+					staleRun--
+					sawStaleRun = true
+				} else {
+					ts = rapid.Uint64Range(0, 1<<48-1).Draw(t, "rnd2")
+				}
 			default:
 				d := rapid.OneOf(rapid.Int64Range(-1000003, -999997), rapid.Int64Range(-3, 3), rapid.Int64Range(-2000000, 2000000)).Draw(t, "delta")
 				v := int64(m.newest) + d
@@ -261,6 +299,12 @@ func TestC07WindowRandom(t *testing.T) {
 		}
 		if has('S') {
 			cs = append(cs, "newest-below-window")
+		}
+		if sawDup {
+			cs = append(cs, "frame-repeated-byte-for-byte")
+		}
+		if sawStaleRun {
+			cs = append(cs, "run-of-8+-stale-frames-with-rising-timestamps")
 		}
 		var hb []byte
 		for _, ts := range hist {
